@@ -52,7 +52,10 @@ BUILTINS = {'sign': sign, 'abs': abs, 'len': len, 'min': min, 'max': max, 'int':
             'set': set, 'enumerate': lambda *a, **k: list(enumerate(*a, **k)), 'tuple': tuple, 'list': list, 'dict': dict,
             'copy.copy': lambda x: x.copy() if hasattr(x, 'copy') else x,
             'zip': lambda *a: list(zip(*a)), 'range': lambda *a: list(range(*a)) if all(isinstance(x, int) and abs(x) < 10000 for x in a) else (_ for _ in ()).throw(Unsupported('long range')),
-            'sorted': sorted, 'sum': sum, 'any': any, 'all': all, 'frozenset': frozenset, 'reversed': lambda x: list(reversed(x))}
+            'sorted': sorted, 'sum': sum, 'any': any, 'all': all, 'frozenset': frozenset, 'reversed': lambda x: list(reversed(x)),
+            'itertools.chain.from_iterable': lambda xs: [y for x in xs for y in x], 'chain.from_iterable': lambda xs: [y for x in xs for y in x],
+            'itertools.chain': lambda *xs: [y for x in xs for y in x], 'chain': lambda *xs: [y for x in xs for y in x],
+            'itertools.product': lambda *xs: list(__import__('itertools').product(*xs)), 'itertools.count': lambda start=0: list(range(start, start + 60))}
 
 CMP = {ast.Eq: lambda a, b: a == b, ast.NotEq: lambda a, b: a != b, ast.Lt: lambda a, b: a < b, ast.LtE: lambda a, b: a <= b,
        ast.Gt: lambda a, b: a > b, ast.GtE: lambda a, b: a >= b, ast.In: lambda a, b: a in b, ast.NotIn: lambda a, b: a not in b,
@@ -184,6 +187,16 @@ def ev(node, env):
             return getattr(recv_m, node.func.attr)(*[ev(a, env) for a in node.args], **{k.arg: ev(k.value, env) for k in node.keywords if k.arg})
         if isinstance(recv_m, str) and node.func.attr == 'format':
             return recv_m.format(*[ev(a, env) for a in node.args], **{k.arg: ev(k.value, env) for k in node.keywords if k.arg})
+        if isinstance(recv_m, (set, frozenset, dict, list, tuple, str)) and not node.func.attr.startswith('_') and hasattr(recv_m, node.func.attr) \
+                and not isinstance(node.func.value, (ast.Name, ast.Attribute)):
+            # a method of a freshly built container / string (`set().union(..)`, `'sep'.join(..)`)
+            args_ = []
+            for a in node.args:
+                if isinstance(a, ast.Starred):
+                    args_.extend(list(ev(a.value, env)))
+                else:
+                    args_.append(ev(a, env))
+            return getattr(recv_m, node.func.attr)(*args_)
     if isinstance(node, ast.Call):
         name = u(node.func)
         fn = env.get(name) if name in env else BUILTINS.get(name)
